@@ -698,9 +698,17 @@ func runC20(c *fw.Ctx) {
 	c.Assume("the race detector only sees interleavings the stress produced, and only Go synchronisation")
 	c.Extra("gomaxprocs", runtime.GOMAXPROCS(0))
 	rounds := c.Pick(8, 40)
+	blocked := false
 	timed := func(name string, f func()) {
+		if blocked {
+			return
+		}
 		t0 := time.Now()
-		f()
+		// each of these workloads takes seconds; one that has not returned after ten minutes is stuck on a
+		// lock that was never released (which the race detector does not report)
+		if !c.Guard("workload:"+name, time.Duration(c.Pick(120, 600))*time.Second, func() string { return name }, f) {
+			blocked = true
+		}
 		c.Observe("ms_"+name, int(time.Since(t0).Milliseconds()))
 	}
 	for r := 0; r < rounds; r++ {
@@ -711,6 +719,7 @@ func runC20(c *fw.Ctx) {
 		timed("tries", func() { c20Tries(c, r) })
 		timed("replicated", func() { c20Replicated(c, r) })
 		timed("merge_race", func() { c20MergeRace(c, r) })
+		timed("double_delete", func() { c20DoubleDelete(c, r) })
 		timed("hot_topic", func() { c20HotTopic(c, r) })
 		timed("session_topics", func() { c20SessionTopics(c, r) })
 	}
@@ -758,7 +767,11 @@ func runC20(c *fw.Ctx) {
 			i := i
 			run(func() { c07Scenario(aux, 9000+i) })
 		}
-		wg.Wait()
+		if !c.Guard("lifecycle-scenarios", time.Duration(c.Pick(180, 900))*time.Second, func() string {
+			return "session lifecycle / take-over / will / tenant scenarios on broker nodes (each takes seconds)"
+		}, wg.Wait) {
+			return
+		}
 		c.Observe("ms_lifecycle_scenarios", int(time.Since(tAux).Milliseconds()))
 		c.Observe("lifecycle_scenarios_under_race_detector", 8+4+4*c.Pick(4, 40)+3+c.Pick(2, 12))
 		c.Observe("lifecycle_scenario_oracle_violations_not_counted_here", aux.Violations())
@@ -770,4 +783,43 @@ func runC20(c *fw.Ctx) {
 	c.Sample(map[string]interface{}{"workload": "broker storm", "clients": 30, "nodes": 2})
 	c.Floor("registry_histories_linearizable", 1)
 	c.Floor("storm_publishes", 100)
+}
+
+// c20DoubleDelete: the record of one session is removed by two goroutines at once (the accepting setup
+// of a take-over and the old session's own teardown do exactly that), unknown sessions are removed too,
+// while other sessions are created. Every call returns, and the listing is what the calls say.
+func c20DoubleDelete(c *fw.Ctx, round int) {
+	var tick int64
+	distributed.VerifSetClock(func() int64 { return 3000000 + atomic.AddInt64(&tick, 1) })
+	a := kit.NewReplica(1)
+	const n = 200
+	for i := 0; i < n; i++ {
+		a.S.SessionMetadatas().Create(fmt.Sprintf("dd-%d", i), fmt.Sprintf("c%d", i), int64(i), nil, "mp")
+	}
+	var wg sync.WaitGroup
+	for g := 0; g < 2; g++ {
+		wg.Add(1)
+		go func(g int) {
+			defer wg.Done()
+			for i := 0; i < n; i += 2 {
+				a.S.SessionMetadatas().Delete(fmt.Sprintf("dd-%d", i))
+				a.S.SessionMetadatas().Delete(fmt.Sprintf("never-existed-%d-%d", g, i))
+			}
+		}(g)
+	}
+	wg.Add(1)
+	go func() {
+		defer wg.Done()
+		for i := 0; i < n; i++ {
+			a.S.SessionMetadatas().Create(fmt.Sprintf("late-%d", i), fmt.Sprintf("lc%d", i), int64(i), nil, "mp")
+			a.S.SessionMetadatas().ByClientID("mp", fmt.Sprintf("c%d", i))
+		}
+	}()
+	wg.Wait()
+	got := len(a.S.SessionMetadatas().All())
+	c.Case(fmt.Sprintf("double-delete|%d", round), true)
+	c.Observe("double_delete_rounds", 1)
+	if want := n/2 + n; got != want {
+		c.Violation("replicated-state-lost-update:double-delete", fmt.Sprintf("double-delete round %d: %d sessions created, %d of them removed (each by two goroutines at once): %d listed, want %d", round, 2*n, n/2, got, want), nil)
+	}
 }
